@@ -350,6 +350,9 @@ def deep_walks(res, exe, wd, prop, tier):
             lj["wake"] = 1 + i
             if (i // 8) % 4 == 1:
                 lj["sendfault"] = 25 + 7 * (i % 9)
+                # every second of these with eight such answers in a row (a consumer that stalls for a while: a writer that retries a few times and then
+                # gives the batch up goes on with a device that missed it)
+                lj["faultrun"] = 8 if (i // 32) % 2 == 1 else 1
         jobs.append(lj)
     nchunks = PROCS
     t0 = time.time()
@@ -404,7 +407,7 @@ def deep_walks(res, exe, wd, prop, tier):
             wjob = next((j for j in jobs if j["id"] == wid), {})
             if nbad <= 5:
                 res.violation(",".join(clauses), {"engine": "E1-mapper-walk", "walk_id": wid, "layout": rows[start]["layout"], "keys": rows[start]["keys"], "history": hist,
-                                                   "via": wjob.get("via", "direct"), "noise": wjob.get("noise", 0), "wake": wjob.get("wake", 0), "sendfault": wjob.get("sendfault", 0),
+                                                   "via": wjob.get("via", "direct"), "noise": wjob.get("noise", 0), "wake": wjob.get("wake", 0), "sendfault": wjob.get("sendfault", 0), "faultrun": wjob.get("faultrun", 1),
                                                    "observed": [{"in": row["e"], "out": row["ev"], "rep": row["rep"]} for row in rows[max(start + 1, at - 8):at]],
                                                    "how": "bin/check %s --replay <this file> lets the real mapper follow exactly this history again and TLC judge it" % prop})
             else:
@@ -423,7 +426,7 @@ def replay_walk(prop, path):
         exe = build_harness()
         wd = workdir("%s-replay" % prop)
         jp = os.path.join(wd, "walkjobs.json")
-        json.dump({"jobs": [{"id": "replay", "layout": rp["layout"], "keys": rp["keys"], "maxheld": 9, "history": rp["history"], "via": rp.get("via", "direct"), "noise": rp.get("noise", 0), "wake": rp.get("wake", 0), "sendfault": rp.get("sendfault", 0)}]}, open(jp, "w"))
+        json.dump({"jobs": [{"id": "replay", "layout": rp["layout"], "keys": rp["keys"], "maxheld": 9, "history": rp["history"], "via": rp.get("via", "direct"), "noise": rp.get("noise", 0), "wake": rp.get("wake", 0), "sendfault": rp.get("sendfault", 0), "faultrun": rp.get("faultrun", 1)}]}, open(jp, "w"))
         tp = os.path.join(wd, "walk.ndjson")
         run_tmv(exe, ["walk", jp], stdout_path=tp)
         props = [prop] + (["RA"] if prop in WITH_RA or any(e["t"] == "RA" for e in rp["history"]) else [])
